@@ -788,6 +788,14 @@ func (x *Exec) havocTargets(fr *Frame, st *State, nodes ...ast.Node) {
 		x.havocAll(st)
 	}
 	for k := range ws.keys {
+		if isSpecialKey(k) {
+			srt := SInt
+			if k[0] == 'H' {
+				srt = ArraySort(SRef, SInt)
+			}
+			st.store[k] = Scalar(Fresh("havoc."+k[3:], srt), nil)
+			continue
+		}
 		if strings.HasPrefix(k, "G:") {
 			g := x.contracts().GhostIdx[k[2:]]
 			if g != nil {
